@@ -46,6 +46,7 @@ type c01In struct {
 	Seed    string     `json:"seed,omitempty"`
 	Parts   []string   `json:"parts,omitempty"`
 	IdPk    bool       `json:"identity_pk,omitempty"`
+	IdSrc   string     `json:"identity_src,omitempty"` // constant | decoded | aggregated | removed
 	Hasher  hasherSpec `json:"hasher"`
 	Msg     string     `json:"msg"`
 	Derive  []string   `json:"derive"`
@@ -135,7 +136,11 @@ func c01Gen(tier string, r *rand.Rand) []Case {
 	mk("key-aggregated", c01In{KeyKind: "aggregated", Parts: []string{hx(fixed(a, 32)), hx(fixed(b, 32))}, Hasher: hasherSpec{Kind: "kmac", Tag: "agg"}, Msg: hx([]byte("agg")), Derive: append(append([]string{}, baseDerive...), flips(3)...)})
 	mk("key-aggregated-zero", c01In{KeyKind: "aggregated", Parts: []string{hx(fixed(a, 32)), hx(fixed(new(big.Int).Sub(blsR, a), 32))}, Hasher: hasherSpec{Kind: "kmac", Tag: "agg"}, Msg: hx([]byte("agg0")), Derive: []string{"valid", "infinity", "plusT", "otherkey"}})
 	// identity public key
-	mk("identity-pk", c01In{KeyKind: "scalar", Scalar: hx(fixed(big.NewInt(3), 32)), IdPk: true, Hasher: hasherSpec{Kind: "kmac", Tag: "id"}, Msg: hx([]byte("id")), Derive: []string{"valid", "infinity", "negated", "plusT"}})
+	// the identity public key obtained in every way the package can produce one (the cached identity
+	// flag must be right for each of them)
+	for _, src := range []string{"constant", "decoded", "aggregated", "removed"} {
+		mk("identity-pk", c01In{KeyKind: "scalar", Scalar: hx(fixed(big.NewInt(3), 32)), IdPk: true, IdSrc: src, Hasher: hasherSpec{Kind: "kmac", Tag: "id"}, Msg: hx([]byte("id")), Derive: []string{"valid", "infinity", "negated", "plusT"}})
+	}
 	// fixed-output hashers: halves all 0xff, >= p, zero
 	ff := make([]byte, 128)
 	for i := range ff {
@@ -212,6 +217,18 @@ func c01Run(c Case) (Result, error) {
 	var pk crypto.PublicKey = sk.PublicKey()
 	if in.IdPk {
 		pk = crypto.IdentityBLSPublicKey()
+		neg, _ := crypto.DecodePrivateKey(crypto.BLSBLS12381, fixed(new(big.Int).Sub(blsR, scalar), 32))
+		switch in.IdSrc {
+		case "decoded":
+			pk, err = crypto.DecodePublicKey(crypto.BLSBLS12381, crypto.IdentityBLSPublicKey().Encode())
+		case "aggregated":
+			pk, err = crypto.AggregateBLSPublicKeys([]crypto.PublicKey{sk.PublicKey(), neg.PublicKey()})
+		case "removed":
+			pk, err = crypto.RemoveBLSPublicKeys(sk.PublicKey(), []crypto.PublicKey{sk.PublicKey()})
+		}
+		if err != nil {
+			return Result{}, err
+		}
 	}
 	hs := in.Hasher.build()
 	msg := unhx(in.Msg)
